@@ -21,12 +21,12 @@ func TestMain(m *testing.M) { h.Main(m) }
 
 type Case struct {
 	Powers  []int64  `json:"powers"`
-	Ops     []sim.Op `json:"ops"`     // prefix schedule (no crashes)
-	Subject int      `json:"subject"` // selector among validators
-	Repair  bool     `json:"repair"`  // neutralise known finding "proposer cache lost on reload" (hook H3)
-	Cut     int      `json:"cut"`     // -1: log intact; else byte offset (mod line length) at which the last WAL line is cut
-	Rotate  int      `json:"rotate"`  // -1: never; else the WAL head is rotated after that many ops
-	Second  int      `json:"second"`  // -1: one crash; else crash again after that many fair steps and compare again
+	Ops     []sim.Op `json:"ops"`       // prefix schedule (no crashes)
+	Subject int      `json:"subject"`   // selector among validators
+	Repair  bool     `json:"repair"`    // neutralise known finding "proposer cache lost on reload" (hook H3)
+	Cut     int      `json:"cut"`       // -1: log intact; else byte offset (mod line length) at which the last WAL line is cut
+	Rotate  int      `json:"rotate"`    // -1: never; else the WAL head is rotated after that many ops
+	Second  int      `json:"second"`    // -1: one crash; else crash again after that many fair steps and compare again
 	PartSz  int      `json:"part_size"` // block part size (0 = 512)
 	TxBytes int      `json:"tx_bytes"`  // size of a transaction queued at every proposer (0 = none): makes WAL records large
 	EndOn   string   `json:"end_on"`    // "": crash where the schedule ends; "part"/"vote": first deliver one more in-flight block part / vote to the subject, so that record is the last one in its log
@@ -203,6 +203,17 @@ func runCase(c Case, x *h.Ctx) {
 		want := dCur
 		state0Proposer := sub.CS.GetState().Validators.Proposer().Address
 		proposerBefore := sub.RS().Validators.Proposer().Address
+		// votes of the current height that the subject has signed (the signer file has them) but not
+		// yet processed: they die with the process, before their WAL line
+		// Only the LAST thing signed can come back: the signer file keeps one signature and refuses
+		// anything older (an earlier prevote of the same round is gone for good, by design).
+		var custody []*types.Vote
+		for _, m := range sub.Own {
+			if vm, ok := m.(*pbft.VoteMessage); ok && vm.Vote.Height == sub.RS().Height && sub.PV != nil &&
+				sub.PV.LastHeight == vm.Vote.Height && sub.PV.LastRound == vm.Vote.Round && int(sub.PV.LastStep) == int(vm.Vote.Type)+1 {
+				custody = append(custody, vm.Vote)
+			}
+		}
 		net.Crash(sub)
 		cutKind := ""
 		if cut >= 0 {
@@ -253,6 +264,35 @@ func runCase(c Case, x *h.Ctx) {
 			}
 		}
 		dCur = got
+		// the step that produced the last signed vote is restored, so that vote has to be there again
+		// (the signer hands out the recorded signature for identical sign-bytes): queued for
+		// processing, or already counted
+		if cutKind == "" && !s20Seen {
+			for _, v := range custody {
+				found := false
+				for _, m := range sub.Own {
+					if vm, ok := m.(*pbft.VoteMessage); ok && vm.Vote.Height == v.Height && vm.Vote.Round == v.Round && vm.Vote.Type == v.Type && vm.Vote.BlockID.Equals(v.BlockID) {
+						found = true
+					}
+				}
+				if rs := sub.RS(); !found && rs.Votes != nil && rs.Height == v.Height {
+					vs := rs.Votes.Prevotes(v.Round)
+					if v.Type == types.VoteTypePrecommit {
+						vs = rs.Votes.Precommits(v.Round)
+					}
+					if vs != nil {
+						if have := vs.GetByAddress(sub.Addr); have != nil && have.BlockID.Equals(v.BlockID) {
+							found = true
+						}
+					}
+				}
+				if found {
+					x.Label("signed-unprocessed-vote-reissued-after-replay")
+				} else if x.Fail("own-signed-vote-not-reissued-after-replay", "%s: before the crash the subject had signed %s (it is in the signer file) but not yet processed it; after the restart the step is restored (%s) and the vote is neither queued again nor counted: nobody will ever send it", tag, sim.Describe(&pbft.VoteMessage{Vote: v}), got) {
+					return false
+				}
+			}
+		}
 		return true
 	}
 
@@ -295,7 +335,7 @@ func runCase(c Case, x *h.Ctx) {
 				others = false
 			}
 		}
-		if others && len(net.Honest()) > 1 && sub.Store.Height() < target {
+		if others && sub.Store.Height() < target {
 			sig := "restarted-node-does-not-decide"
 			if s20Seen {
 				// the reloaded node disagreed with its peers about the proposer (recorded finding): it may
